@@ -532,6 +532,25 @@ def rule_sibling(ctx):
     ctx.ob(R, f"{IMP}::_calc_rx::fault-impedance-per-unit", ok,
            "fault impedance (r + j x) is divided by the base impedance Un^2 / S_base" if ok else
            "the fault impedance in ohm is not converted with the base impedance of the faulted bus", fi.loc(fz[0]) if fz else fi.loc())
+    # kappa method C works on a deep copy whose branch reactances and generator admittances were changed: both
+    # branches must rebuild their solver object (Zbus / factorisation) from the new Ybus unconditionally
+    fkc = ctx.repo.func(f"{KAP}:_kappa_method_c")
+    brk = [n for n in walk_no_nested(fkc.node) if isinstance(n, ast.If) and "inverse_y" in norm(n.test)]
+    ok = False
+    why = "inverse_y dispatch not found"
+    if brk:
+        a_calls = [call_name(c) for st in brk[0].body for c in calls_in(st)]
+        else_ = brk[0].orelse
+        direct = [st for st in else_ if isinstance(st, ast.Assign) and "ybus_fact" in norm(st.targets[0]) and
+                  any(call_name(c) == "factorized" for c in calls_in(st))]
+        ok = "_calc_zbus" in a_calls and bool(direct)
+        why = "the factorisation of the modified network is conditional (a stored one can be reused)" if not direct else "Zbus not rebuilt"
+        pos_y = [i for i, st in enumerate(fkc.node.body) if any(call_name(c) == "_calc_ybus" for c in calls_in(st))]
+        pos_b = fkc.node.body.index(brk[0]) if brk[0] in fkc.node.body else -1
+        ok = ok and bool(pos_y) and pos_y[-1] < pos_b
+    ctx.ob(R, f"{KAP}::_kappa_method_c::solver-rebuilt", ok,
+           "both branches rebuild Zbus / the factorisation from the Ybus of the modified copy" if ok else
+           f"_kappa_method_c: {why}: kappa (and ip, ith) then depend on inverse_y", fkc.loc(brk[0]) if brk else fkc.loc())
     # V_ikss
     fk = ctx.repo.func(f"{CUR}:_calc_ikss")
     br = [n for n in ast.walk(fk.node) if isinstance(n, ast.If) and "inverse_y" in norm(n.test)]
@@ -560,6 +579,19 @@ def run(ctx):
     ctx.require_min(R, 40)
     ctx.info("not decided by the shape domain: GS_P/BS_P of _add_gen_sc_z_kg_ks (NaN-initialised helper array), IKSS2/IKCV "
              "(matrix products)")
+    from rules import _lints
+    RA = "SC-ACCUMULATE"
+    ctx.rule(RA, "the short-circuit admittances of several elements at one bus add up: in-place adds into ppc['bus'][idx, GS|BS] use "
+                 "the unique group key of _sum_by_group (numpy's fancy-index += keeps only the last of repeated indices), so the "
+                 "Thevenin impedance sees every ext_grid / motor / generator / ward")
+    fis = [ctx.repo.func(f"{BBU}:_add_ext_grid_sc_impedance"), ctx.repo.func(f"{BBU}:_add_motor_impedances_ppc"),
+           ctx.repo.func(f"{BBU}:_add_load_sc_impedances_ppc"), ctx.repo.func(f"{PPC}:_add_ward_sc_z"), ctx.repo.func(f"{PPC}:_add_gen_sc_z_kg_ks"),
+           ctx.repo.func("pandapower.pd2ppc_zero:_add_gen_sc_impedance_zero"), ctx.repo.func("pandapower.pd2ppc_zero:_add_ext_grid_sc_impedance_zero")]
+    n = _lints.accumulate_unique(ctx, RA, fis, allowed={
+        ("_add_gen_sc_impedance_zero", "eg_buses_ppc"): "constant dummy admittance 1/(1e3+1e3j) that only keeps the zero-sequence "
+                                                        "matrix regular: its multiplicity is immaterial"})
+    if n < 10:
+        ctx.fail(f"SC-ACCUMULATE: only {n} in-place adds of short-circuit admittances found")
     rule_factor(ctx)
     rule_kappa(ctx)
     rule_local(ctx)
@@ -605,6 +637,8 @@ def variants(repo):
         V("ext grid min uses max column", bb, in_function("_add_ext_grid_sc_impedance", replace_once('rx = eg["rx_%s" % case].values', 'rx = eg["rx_max"].values')), "ext-grid-min:store:ppc.bus.GS"),
         V("motor efficiency not percent", bb, in_function("_add_motor_impedances_ppc", replace_once("s_motor = p_mech / (efficiency/100 * cos_phi)", "s_motor = p_mech / (efficiency * cos_phi)")), "motor:store:ppc.bus.GS"),
         V("gen x without rated power", pc, in_function("_add_gen_sc_z_kg_ks", replace_once("r_gen, x_gen = rdss_ohm, xdss_pu * vn_gen ** 2 / sn_gen", "r_gen, x_gen = rdss_ohm, xdss_pu * vn_gen ** 2")), "gen:store:ppc.bus.GS"),
+        V("kappa c reuses the stored factorisation", ka, replace_once("    else:\n        # Factorization Ybus once\n        ppc_c[\"internal\"][\"ybus_fact\"]", "    elif \"ybus_fact\" not in ppc_c[\"internal\"]:\n        # Factorization Ybus once\n        ppc_c[\"internal\"][\"ybus_fact\"]"), "solver-rebuilt"),
+        V("ext grids at one bus overwrite each other", bb, in_function("_add_ext_grid_sc_impedance", lambda s: s.replace('ppc["bus"][buses, GS] += gs * ppc[\'baseMVA\']', 'ppc["bus"][eg_buses_ppc, GS] += y_grid.real * ppc[\'baseMVA\']', 1)), "SC-ACCUMULATE"),
         # twins
         V("twin: reorder ikss 2ph", cu, replace_once('np.abs(c / z_equiv / ppci["bus"][bus_idx, BASE_KV] / 2 * ppci["baseMVA"])', 'np.abs(c * ppci["baseMVA"] / (2 * z_equiv * ppci["bus"][bus_idx, BASE_KV]))'), None),
         V("twin: kappa constants named", ka, replace_once("return 1.02 + .98 * np.exp(-3 * rx)", "return 1.02 + 0.98 * np.exp(-3. * rx)"), None),
